@@ -1658,6 +1658,11 @@ def _reduce(kind, x, axis, keepdims=False):
       if kind == "any":
         return sym.sor(*[OPS.truth(v) for v in vals]) if any(isinstance(v, sym.Sym) for v in vals) else any(vals)
     return Tensor(shape, dt, fn_exact)
+  if kind in ("all", "any"):
+    probe = x.at(tuple(SInt(cur().fresh_int("j_probe")) for _ in x.shape))
+    if isinstance(probe, bool):
+      # a constant predicate (e.g. isfinite in real mode): non-empty reduction of a constant
+      return Tensor(shape, bool_, lambda idx, v=probe: v)
   rkey = ("reduction", kind, id(x), tuple(axes))
   red = cur().ghost.get(rkey)
   if red is None:
